@@ -121,9 +121,20 @@ package httpserver
 // Client IP (added): some requests carry X-Forwarded-For / X-Real-Ip, so the
 // address the filters judge differs from the transport address.
 //
-// Leniency / not generated: xForwardedFor off; one of path / pathPrefix /
-// pathRegexp per entry; /.well-known/acme-challenge/ is not requested;
-// private / loopback client addresses are not used; reloads are never concurrent
+// ORDINARY INPUTS (added, const c12Wide): xForwardedFor on; entries with two
+// path conditions of different kinds; regexps that are not anchored; methods
+// HEAD / OPTIONS / PATCH; IPv6 clients (transport and proxy headers), IPv6
+// addresses and CIDRs in filters, Host: [::1]:8080 / [::1] / "a.test:" and a
+// rule for host ::1; a repeated header line with another value; a lower-case
+// header key in the spec; request targets with percent-encoded reserved
+// characters (%2F %3F %23 %20); servers without rules, rules without entries;
+// bodies that end before their declared Content-Length (400). White-box
+// probes c12.search.* say which branch of search() a request took (peek into
+// the cache before the request; probes only).
+//
+// Leniency / not generated: globalFilter and tracing (need a supervisor /
+// a tracer backend); /.well-known/acme-challenge/ is not requested; requests
+// without Host; private / loopback client addresses are not used; reloads are never concurrent
 // with each other (easegress serialises them too); the same MuxMapper object is
 // handed to every reload; a request that overlaps
 // several reloads may be answered by any generation in its window; only the
@@ -205,6 +216,7 @@ type c12Req struct {
 	Hold   int     `json:"hold,omitempty"` // gates the handler of the cached mux parks at (request stays in flight)
 	Body   int     `json:"body,omitempty"` // length of the request body
 	Chunk  bool    `json:"chunk,omitempty"` // body sent with Transfer-Encoding: chunked (no Content-Length)
+	Short  bool    `json:"short,omitempty"` // the body ends 3 bytes before the declared Content-Length (client gave up)
 	Fwd    string  `json:"fwd,omitempty"`   // X-Forwarded-For value (the client sits behind a proxy)
 	XReal  string  `json:"x_real,omitempty"` // X-Real-Ip value
 
@@ -223,6 +235,7 @@ type c12SpecD struct {
 	IPF       *c12IPF   `json:"ipf,omitempty"`
 	Rules     []c12Rule `json:"rules"`
 	MaxBody   int64     `json:"max_body,omitempty"` // server-level clientMaxBodySize (0: default)
+	XFF       bool      `json:"xff,omitempty"`      // xForwardedFor
 }
 
 // c12Live is a reload done by the reloader task while the clients of a phase run.
@@ -270,9 +283,19 @@ type c12Scenario struct {
 	ValidateAll bool        `json:"validate_all,omitempty"` // every generation's text goes through supervisor.NewSpec
 }
 
+// c12Wide switches on the "ordinary but so far unexplored" ranges of the
+// generator: xForwardedFor, entries with several path conditions, unanchored
+// regexps, HEAD/OPTIONS/PATCH, IPv6 clients / filter entries / host literals,
+// repeated header lines, lower-case header keys in the spec, percent-encoded
+// reserved characters in request targets, servers without rules and rules
+// without entries, bodies shorter than their declared Content-Length.
+const c12Wide = true
+
 var (
 	c12IPs     = []string{"198.51.100.1", "198.51.100.2", "203.0.113.7", "203.0.113.8"}
 	c12IPEnts  = []string{"198.51.100.1", "198.51.100.2", "203.0.113.7", "203.0.113.8", "198.51.100.0/24"}
+	c12IPs6    = []string{"2001:db8::1", "2001:db8::2", "2001:db8:1::7"}
+	c12IPEnts6 = []string{"2001:db8::1", "2001:db8::/64", "2001:db8:1::7"}
 	c12ReqPath = []string{"/x", "/x/y", "/y", "/xy"}
 	// what the in-alphabet rewrite targets can also produce
 	c12ReqPathX = []string{"/y/y", "/yy", "/x/x", "/x/"}
@@ -294,13 +317,17 @@ func c12Subset(rng *sim.Rand, from []string, lo, hi int) []string {
 
 func c12GenIPF(rng *sim.Rand) *c12IPF {
 	f := &c12IPF{}
+	ents := c12IPEnts
+	if c12Wide && rng.Bool(0.3) {
+		ents = append(append([]string{}, c12IPEnts...), c12IPEnts6...)
+	}
 	if rng.Bool(0.35) {
 		f.BlockByDefault = true
-		f.Allow = c12Subset(rng, c12IPEnts, 1, 3)
-		f.Block = c12Subset(rng, c12IPEnts, 0, 1)
+		f.Allow = c12Subset(rng, ents, 1, 3)
+		f.Block = c12Subset(rng, ents, 0, 1)
 	} else {
-		f.Block = c12Subset(rng, c12IPEnts, 1, 2)
-		f.Allow = c12Subset(rng, c12IPEnts, 0, 1)
+		f.Block = c12Subset(rng, ents, 1, 2)
+		f.Allow = c12Subset(rng, ents, 0, 1)
 	}
 	return f
 }
@@ -311,6 +338,9 @@ func c12GenHeaders(rng *sim.Rand) []c12Hdr {
 		{Key: "X-V", Values: []string{"1", "2"}},
 		{Key: "X-W", Values: []string{}, Regexp: "^a"},
 		{Key: "X-W", Values: []string{"b"}, Regexp: "^ab$"},
+	}
+	if c12Wide {
+		opts = append(opts, c12Hdr{Key: "x-v", Values: []string{"2"}}, c12Hdr{Key: "X-W", Values: []string{}, Regexp: "b"})
 	}
 	n := rng.Pick(1, 1, 2)
 	p := rng.Perm(len(opts))[:n]
@@ -389,8 +419,31 @@ func c12GenPath(rng *sim.Rand, backend string, pIPF, pHdr float64) c12Path {
 	default:
 		// no path condition: matches every path
 	}
+	if c12Wide && rng.Bool(0.08) {
+		// a regexp that is not anchored (matches inside the path; a rewrite replaces only the match)
+		p.Path, p.Prefix = "", ""
+		p.Regexp = rng.PickStr("/x", "y$", "^/x")
+		if p.Rewrite != "" {
+			p.Rewrite = rng.PickStr("/y", "/x/y", "/z"+backend)
+		}
+	}
+	if c12Wide && (p.Path != "" || p.Prefix != "" || p.Regexp != "") && rng.Bool(0.15) {
+		// a second path condition of another kind on the same entry (they are alternatives)
+		switch {
+		case p.Path == "" && rng.Bool(0.5):
+			p.Path = rng.PickStr("/y", "/xy", "/x/y")
+		case p.Prefix == "" && rng.Bool(0.5):
+			p.Prefix = rng.PickStr("/x/", "/y")
+		case p.Regexp == "":
+			p.Regexp = rng.PickStr("^/(x|y)$", "^/x/(.*)$", "y$")
+		}
+	}
 	if rng.Bool(0.5) {
-		p.Methods = c12Subset(rng, []string{"GET", "POST", "PUT"}, 1, 2)
+		ms := []string{"GET", "POST", "PUT"}
+		if c12Wide && rng.Bool(0.3) {
+			ms = []string{"GET", "POST", "PUT", "HEAD", "OPTIONS", "PATCH"}
+		}
+		p.Methods = c12Subset(rng, ms, 1, 2)
 	}
 	if rng.Bool(pHdr) {
 		p.Headers = c12GenHeaders(rng)
@@ -432,7 +485,11 @@ func c12NearVariant(rng *sim.Rand, host, method, target string) (string, string,
 		if i := strings.IndexByte(t, '?'); i >= 0 {
 			path, query = t[:i], t[i:]
 		}
-		switch rng.Pick(0, 0, 0, 1, 1, 2, 3, 3, 4, 4, 5, 5, 6, 7, 7, 8) {
+		pick := rng.Pick(0, 0, 0, 1, 1, 2, 3, 3, 4, 4, 5, 5, 6, 7, 7, 8)
+		if c12Wide && rng.Bool(0.15) {
+			pick = 9
+		}
+		switch pick {
 		case 0: // WWW.A.TEST <-> www.a.test
 			name = c12ToggleCase(name)
 		case 1: // A.test <-> a.test
@@ -476,6 +533,24 @@ func c12NearVariant(rng *sim.Rand, host, method, target string) (string, string,
 			} else {
 				query = ""
 			}
+		case 9: // reserved characters, percent-encoded (they belong to the path, they do not delimit)
+			switch rng.Intn(5) {
+			case 0:
+				if i := strings.LastIndexByte(path, '/'); i > 0 {
+					path = path[:i] + "%2F" + path[i+1:]
+				} else {
+					path += "%2Fy"
+				}
+			case 1:
+				path += "%3Fq=1"
+			case 2:
+				path += "%23f"
+			case 3:
+				path += "%20"
+			default:
+				path = strings.Replace(path, "%2F", "/", 1)
+				path = strings.TrimSuffix(strings.TrimSuffix(strings.TrimSuffix(path, "%3Fq=1"), "%23f"), "%20")
+			}
 		}
 		h, t = name+port, path+query
 		if h != host || m != method || t != target {
@@ -501,10 +576,17 @@ func c12GenRule(rng *sim.Rand, backend func() string, pIPF, pHdr float64) c12Rul
 	default:
 		// no host condition: matches every host
 	}
+	if c12Wide && rng.Bool(0.06) {
+		ru.Host, ru.HostRegexp = "::1", "" // requests say Host: [::1]:8080
+	}
 	if rng.Bool(pIPF) {
 		ru.IPF = c12GenIPF(rng)
 	}
 	np := rng.Range(1, 3)
+	if c12Wide && rng.Bool(0.04) {
+		np = 0 // a rule without entries (its filter still counts)
+		ru.Paths = []c12Path{}
+	}
 	for j := 0; j < np; j++ {
 		p := c12GenPath(rng, backend(), pIPF, pHdr)
 		ru.Paths = append(ru.Paths, p)
@@ -550,7 +632,9 @@ func c12NextSpec(rng *sim.Rand, prev *c12SpecD, backend func() string, pIPF, pHd
 		}
 	}
 	serverEdit := func() {
-		if rng.Bool(0.75) {
+		if c12Wide && rng.Bool(0.1) {
+			d.XFF = !d.XFF
+		} else if rng.Bool(0.75) {
 			toggleIPF(&d.IPF)
 		} else {
 			d.MaxBody = int64(rng.Pick(0, -1, 8, 8, 32))
@@ -708,6 +792,13 @@ func c12Gen(rng *sim.Rand, tier string) interface{} {
 	nb := 0
 	backend := func() string { nb++; return fmt.Sprintf("b%d", nb) }
 	nr := rng.Pick(1, 1, 2, 2, 3)
+	if c12Wide {
+		sc.XFF = rng.Bool(0.15)
+		if rng.Bool(0.03) {
+			nr = 0 // a server without rules
+			sc.Rules = []c12Rule{}
+		}
+	}
 	for i := 0; i < nr; i++ {
 		sc.Rules = append(sc.Rules, c12GenRule(rng, backend, pIPF, pHdr))
 	}
@@ -772,14 +863,36 @@ func c12Gen(rng *sim.Rand, tier string) interface{} {
 		hosts = append(hosts, "a.testP", "a.testP")
 		methods = append(methods, "OST", "UT", "POST", "PUT")
 	}
+	ips := c12IPs
+	if c12Wide {
+		if rng.Bool(0.4) {
+			hosts = append(hosts, "[::1]:8080", "a.test:", "[::1]")
+		}
+		if rng.Bool(0.5) {
+			methods = append(methods, "HEAD", "OPTIONS", "PATCH")
+		}
+		if rng.Bool(0.35) {
+			ips = append(append([]string{}, c12IPs...), c12IPs6...)
+		}
+	}
+	pDup := 0.0
+	pShort := 0.0
+	if c12Wide {
+		pDup = []float64{0, 0.1, 0.3}[rng.Intn(3)]
+		pShort = []float64{0, 0, 0.15}[rng.Intn(3)]
+	}
 	var all []c12Req
 	pBody := []float64{0, 0.2, 0.5}[rng.Intn(3)]
 	pProxy := []float64{0, 0, 0.15, 0.4}[rng.Intn(4)]
 	drawVar := func(q *c12Req) {
-		q.IP = c12IPs[rng.Intn(len(c12IPs))]
+		q.IP = ips[rng.Intn(len(ips))]
 		q.Hdr = []c12KV{}
 		if rng.Bool(0.5) {
 			q.Hdr = append(q.Hdr, c12KV{"X-V", rng.PickStr("1", "1", "2", "3")})
+			if rng.Bool(pDup) {
+				// a second field line of the same name
+				q.Hdr = append(q.Hdr, c12KV{"X-V", rng.PickStr("1", "2", "3")})
+			}
 		}
 		if rng.Bool(0.35) {
 			q.Hdr = append(q.Hdr, c12KV{"X-W", rng.PickStr("a", "ab", "b")})
@@ -787,16 +900,17 @@ func c12Gen(rng *sim.Rand, tier string) interface{} {
 		if rng.Bool(pBody) {
 			q.Body = rng.Pick(1, 4, 5, 8, 9, 16, 17, 40)
 			q.Chunk = rng.Bool(0.2)
+			q.Short = !q.Chunk && rng.Bool(pShort)
 		}
 		if rng.Bool(pProxy) {
 			// the client IP the server works with comes from a proxy's header
 			switch rng.Intn(3) {
 			case 0:
-				q.Fwd = c12IPs[rng.Intn(len(c12IPs))]
+				q.Fwd = ips[rng.Intn(len(ips))]
 			case 1:
-				q.Fwd = c12IPs[rng.Intn(len(c12IPs))] + ", " + c12IPs[rng.Intn(len(c12IPs))]
+				q.Fwd = ips[rng.Intn(len(ips))] + ", " + ips[rng.Intn(len(ips))]
 			default:
-				q.XReal = c12IPs[rng.Intn(len(c12IPs))]
+				q.XReal = ips[rng.Intn(len(ips))]
 			}
 		}
 	}
@@ -1090,6 +1204,9 @@ func c12SpecText(sc *c12SpecD, cacheSize int) string {
 	if sc.MaxBody != 0 {
 		m["clientMaxBodySize"] = sc.MaxBody
 	}
+	if sc.XFF {
+		m["xForwardedFor"] = true
+	}
 	rules := []interface{}{}
 	for _, ru := range sc.Rules {
 		rm := map[string]interface{}{}
@@ -1284,7 +1401,7 @@ func (q *c12Req) clientIP() string {
 
 func c12HdrGet(q *c12Req, key string) string {
 	for _, kv := range q.Hdr {
-		if kv.K == key {
+		if http.CanonicalHeaderKey(kv.K) == http.CanonicalHeaderKey(key) {
 			return kv.V
 		}
 	}
@@ -1335,6 +1452,9 @@ type c12Why struct {
 	Rule      int    // deciding rule (403 by rule/path, or route)
 	ViaHeader bool   // the deciding path is header-conditioned
 	TooLarge  bool   // routed, but the body exceeds the documented effective clientMaxBodySize
+	BadBody   bool   // routed, but the body ends before its declared length (and is not streamed)
+	HdrSkip   bool   // routed by a header-less entry AFTER a header-conditioned one was skipped (result depends on headers)
+	TwoConds  bool   // the routing entry has more than one path condition
 }
 
 func c12Model(sc *c12SpecD, q *c12Req) c12Why {
@@ -1375,7 +1495,19 @@ func c12Model(sc *c12SpecD, q *c12Req) c12Why {
 			if limit == 0 {
 				limit = 4 * 1024 * 1024
 			}
-			return c12Why{Backend: p.Backend, Rule: i, ViaHeader: len(p.Headers) > 0, TooLarge: limit >= 0 && int64(q.Body) > limit}
+			declared := int64(q.Body)
+			if q.Short && q.Body > 0 && !q.Chunk {
+				declared += 3
+			}
+			nc := 0
+			for _, c := range []string{p.Path, p.Prefix, p.Regexp} {
+				if c != "" {
+					nc++
+				}
+			}
+			w := c12Why{Backend: p.Backend, Rule: i, ViaHeader: len(p.Headers) > 0, TooLarge: limit >= 0 && declared > limit, HdrSkip: hdrMis && len(p.Headers) == 0, TwoConds: nc > 1}
+			w.BadBody = !w.TooLarge && limit >= 0 && declared > int64(q.Body)
+			return w
 		}
 	}
 	switch {
@@ -1524,7 +1656,7 @@ func c12HTTPReq(q *c12Req, id string) *http.Request {
 	if err != nil {
 		u = &url.URL{Path: q.Path}
 	}
-	req := &http.Request{Method: q.Method, URL: u, Host: q.Host, Header: h, RemoteAddr: q.IP + ":40000",
+	req := &http.Request{Method: q.Method, URL: u, Host: q.Host, Header: h, RemoteAddr: net.JoinHostPort(q.IP, "40000"),
 		Body: http.NoBody, Proto: "HTTP/1.1", ProtoMajor: 1, ProtoMinor: 1, RequestURI: q.Path}
 	if n := q.Body; n > 0 && n <= 4096 {
 		req.Body = io.NopCloser(strings.NewReader(strings.Repeat("z", n)))
@@ -1533,7 +1665,10 @@ func c12HTTPReq(q *c12Req, id string) *http.Request {
 			req.TransferEncoding = []string{"chunked"}
 		} else {
 			req.ContentLength = int64(n)
-			h.Set("Content-Length", fmt.Sprint(n))
+			if q.Short {
+				req.ContentLength += 3
+			}
+			h.Set("Content-Length", fmt.Sprint(req.ContentLength))
 		}
 	}
 	return req
@@ -1549,6 +1684,8 @@ func (q *c12Req) String() string {
 		body = fmt.Sprintf(" body=%d", q.Body)
 		if q.Chunk {
 			body += "(chunked)"
+		} else if q.Short {
+			body += "(declared 3 more)"
 		}
 	}
 	from := q.IP
@@ -1896,6 +2033,8 @@ func c12Exec(r *sim.Run, sci interface{}) {
 			return exp.Status == 503 && exp.Backend == ""
 		case why.Status == 0 && why.TooLarge:
 			return exp.Status == 413 && exp.Backend == ""
+		case why.Status == 0 && why.BadBody:
+			return exp.Status == 400 && exp.Backend == ""
 		case why.Status == 0:
 			return exp.Status == 200 && exp.Backend == why.Backend && exp.Gen == snaps[v].gen(why.Backend)
 		}
@@ -2023,6 +2162,18 @@ func c12Exec(r *sim.Run, sci interface{}) {
 			inflight++
 			if inflight > maxInflight {
 				maxInflight = inflight
+			}
+			// white-box, probes only: which branch of search() will this request take
+			// (the key text mirrors getRouteFromCache; Peek does not touch the recency lists)
+			hitKind := "miss"
+			if ic := instC; ic != nil && ic.cache != nil {
+				if v, ok := ic.cache.Peek(q.Host + " " + q.Method + " " + q.dec); ok {
+					if rt, _ := v.(*route); rt != nil && rt.code != 0 {
+						hitKind = "hit_status"
+					} else {
+						hitKind = "hit_route"
+					}
+				}
 			}
 			insideReload := begun > done
 			recC := httptest.NewRecorder()
@@ -2202,6 +2353,80 @@ func c12Exec(r *sim.Run, sci interface{}) {
 			}
 			if exp.Backend != "" && exp.Path != q.dec {
 				r.Probe("c12.path_rewritten")
+			}
+			if lo == hi && mlo == mhi && accepted {
+				branch := ""
+				switch {
+				case hitKind == "hit_route" && got.Status == 403:
+					branch = "hit_route.denied_by_cached_filters"
+				case hitKind == "hit_route" && got.Backend != "":
+					branch = "hit_route.served"
+				case hitKind == "hit_route":
+					branch = fmt.Sprintf("hit_route.%d", got.Status)
+				case hitKind == "hit_status" && got.Status == 403:
+					branch = "hit_status.denied_by_cached_filters"
+				case hitKind == "hit_status":
+					branch = fmt.Sprintf("hit_status.%d", got.Status)
+				case got.Status == 403:
+					branch = "miss.denied_by_" + why.Level
+				case why.Status == 0 && why.ViaHeader:
+					branch = "miss.routed_by_header_entry_not_cached"
+				case why.Status == 0 && why.HdrSkip:
+					branch = "miss.routed_after_header_skip_not_cached"
+				case why.Status == 0:
+					branch = "miss.routed_and_cached"
+				default:
+					branch = fmt.Sprintf("miss.%d", got.Status)
+				}
+				r.Probe("c12.search." + branch)
+			}
+			d0 := gens[lo].d
+			if d0.XFF {
+				r.Probe("c12.req.server_appends_x_forwarded_for")
+				if exp.Backend != "" && (q.Fwd != "" || q.XReal != "") {
+					r.Probe("c12.req.server_appends_x_forwarded_for_to_proxied_request")
+				}
+			}
+			if len(d0.Rules) == 0 {
+				r.Probe("c12.req.to_server_without_rules")
+			}
+			if why.TwoConds {
+				r.Probe("c12.req.routed_by_entry_with_several_path_conditions")
+				if exp.Path != q.dec {
+					r.Probe("c12.req.rewritten_by_entry_with_several_path_conditions")
+				}
+			}
+			if strings.Contains(q.IP, ":") || strings.Contains(q.clientIP(), ":") {
+				r.Probe("c12.req.ipv6_client")
+				if exp.Status == 403 {
+					r.Probe("c12.req.ipv6_client_denied")
+				}
+			}
+			if strings.HasPrefix(q.Host, "[") || strings.HasSuffix(q.Host, ":") {
+				r.Probe("c12.req.host_ipv6_literal_or_empty_port")
+				if exp.Backend != "" {
+					r.Probe("c12.req.host_ipv6_literal_or_empty_port_routed")
+				}
+			}
+			switch strings.ToUpper(q.Method) {
+			case "HEAD", "OPTIONS", "PATCH":
+				r.Probe("c12.req.method_head_options_patch")
+			}
+			if strings.ContainsAny(q.dec, "?# ") || strings.Contains(q.Path, "%2F") {
+				r.Probe("c12.req.reserved_char_percent_encoded_in_path")
+				if exp.Backend != "" {
+					r.Probe("c12.req.reserved_char_percent_encoded_in_path_routed")
+				}
+			}
+			for i := range q.Hdr {
+				for j := 0; j < i; j++ {
+					if q.Hdr[i].K == q.Hdr[j].K && q.Hdr[i].V != q.Hdr[j].V {
+						r.Probe("c12.req.repeated_header_line_with_other_value")
+					}
+				}
+			}
+			if why.BadBody {
+				r.Probe("c12.req.body_shorter_than_declared")
 			}
 			if q.Fwd != "" || q.XReal != "" {
 				r.Probe("c12.req.client_ip_from_proxy_header")
@@ -2429,6 +2654,7 @@ func TestVerifC12(t *testing.T) {
 		Rule: "scenario = drawn HTTPServer spec (1-3 rules, host/hostRegexp/any, exact/prefix/regexp/any paths, method lists, header-conditioned entries often followed by their header-less copy, " +
 			"IP filters at server/rule/path level, rewrites, unknown backends, clientMaxBodySize at server/path level) x cacheSize in {1,2,3,16} x 1-4 client tasks per phase sending 4-28 requests (some with bodies, some with the client IP in X-Forwarded-For / X-Real-Ip) over a small alphabet with repeats of earlier (host,method,path) under other headers/IPs " +
 			"and, in a fifth of the runs, host+method pairs whose concatenations coincide, and (in 3 of 4 runs) near-miss variants of earlier requests (host case/port/trailing dot, path slash/case/percent-escape/query, method case); " +
+			"ordinary variations: xForwardedFor, entries with two path conditions, unanchored regexps, HEAD/OPTIONS/PATCH, IPv6 clients / filter entries / host literals, repeated header lines, percent-encoded reserved characters in targets, servers without rules, rules without entries, truncated bodies; " +
 			"in more than half of the runs 1-3 changes of the mux mapper without a reload (backend deleted / replaced by a new handler under the same name / created), quiescent or in flight; " +
 			"in two thirds of the runs 1-3 hot reloads of BOTH muxes with an edited / server-level-only / identical / fresh spec, each at a quiescent point between two phases or by a reloader task while requests are in flight; every request is also put to the cache-less instance of every generation it may have seen; " +
 			"non-trivial = at least one request repeated the (host,method,path) of an earlier one of the same generation with other headers or another client IP (the cache can matter); distinct = distinct (spec, ordered request/answer/reload history)",
@@ -2442,7 +2668,7 @@ func TestVerifC12(t *testing.T) {
 			"reloads are serialised (never two at a time); cacheSize stays > 0",
 			"the MuxMapper's content changes without reloads (backends deleted / replaced by a new handler object / created), at quiescent points and in flight; the cache-less server is asked through copies of its instances bound to a mapper frozen at a version; a request spanning mapper versions mlo..mhi may be answered like any of them; chosen backend = (name, handler generation)",
 			"without statement gates search() contains no gate, so cache operations of concurrent requests are serialised in the order the harness records (used by the classifier only); overlap exists around the handler call and around the gates of reload()",
-			"client IP is the transport address or, when the request carries X-Forwarded-For / X-Real-Ip, what those say (public addresses only); xForwardedFor off, one path condition per entry",
+			"client IP is the transport address or, when the request carries X-Forwarded-For / X-Real-Ip, what those say (public IPv4 / IPv6 addresses only); globalFilter and tracing are not configured",
 			"the explanatory routing model is used only to name the violation class and is cross-checked against the twin on every request",
 		},
 	})
